@@ -132,6 +132,29 @@ func r15b(c *RuleCtx) {
 	r15bIn(c, props, fn, file, c.pos(acq), 0)
 }
 
+// fileOnlyReleased: every use of the *os.File parameter prm in its function is
+// a Close or Sync call on it.
+func fileOnlyReleased(prm *ssa.Parameter) bool {
+	if !isNamed(prm.Type(), "os", "File") || prm.Referrers() == nil {
+		return false
+	}
+	n := 0
+	for _, r := range *prm.Referrers() {
+		switch x := r.(type) {
+		case *ssa.DebugRef:
+		case ssa.CallInstruction:
+			f := staticCallee(x)
+			if f == nil || (f.String() != "(*os.File).Close" && f.String() != "(*os.File).Sync") || len(x.Common().Args) == 0 || x.Common().Args[0] != ssa.Value(prm) {
+				return false
+			}
+			n++
+		default:
+			return false
+		}
+	}
+	return n > 0
+}
+
 // r15bIn: in fn, `file` (the output file) and the buffered writer around it are
 // used only by the counting writer's constructor, Flush, Sync, Close and
 // cleanup; the size reported on success is the counting writer's final count.
@@ -155,6 +178,9 @@ func r15bIn(c *RuleCtx, props []string, fn *ssa.Function, file ssa.Value, acqPos
 				r := root(a)
 				if r == root(file) || sameValue(a, file) {
 					nm := calleeName(cs)
+					if callee != nil && c.p.InZap(callee) && callee.Parent() == nil && len(callee.Blocks) > 0 && ai < len(callee.Params) && fileOnlyReleased(callee.Params[ai]) {
+						continue // a cleanup helper: closes (syncs) the file and nothing else
+					}
 					if callee != nil && c.p.InZap(callee) && callee.Parent() == nil && len(callee.Blocks) > 0 && ai < len(callee.Params) && isNamed(callee.Params[ai].Type(), "os", "File") && depth < 2 {
 						if call, ok := cs.(*ssa.Call); ok && delegate == nil {
 							delegate, delegateParam = call, callee.Params[ai]
@@ -344,7 +370,7 @@ func r15c(c *RuleCtx) {
 
 func isBoolParamNamed(v ssa.Value, name string) bool {
 	p, ok := v.(*ssa.Parameter)
-	return ok && p.Name() == name && isBoolType(p)
+	return ok && canonParamName(p) == name && isBoolType(p)
 }
 
 func ruleR17() *Rule {
@@ -394,7 +420,7 @@ func ruleR17() *Rule {
 						}
 						return nil
 					})
-					condTr := func(cond ssa.Value, outcome bool, ev uint64) uint64 {
+					condTr := func(cond ssa.Value, outcome bool, ev uint64, _ func(ssa.Value) ssa.Value) uint64 {
 						if isBoolParamNamed(cond, "fieldsSame") {
 							if outcome {
 								return ev | evFS
@@ -426,7 +452,7 @@ func ruleR17() *Rule {
 						if !ok {
 							return ev
 						}
-						return condTr(iff.Cond, succIdx == 0, ev)
+						return condTr(iff.Cond, succIdx == 0, ev, func(v ssa.Value) ssa.Value { return v })
 					}
 					pa.run(0)
 					fs, de := true, true
@@ -768,10 +794,25 @@ func docNumTableElem(v ssa.Value) (*ssa.IndexAddr, bool) {
 	for i := 0; i < 6; i++ {
 		switch y := x.(type) {
 		case *ssa.Parameter:
-			return ia, strings.Contains(y.Name(), "DocNums")
+			return ia, strings.Contains(canonParamName(y), "DocNums")
 		case *ssa.FreeVar:
+			// a captured parameter answers to its pinned name
+			if b := freeVarBinding(y); b != nil {
+				if al, ok := b.(*ssa.Alloc); ok {
+					for _, st := range cellStores(al) {
+						if prm, ok := st.Val.(*ssa.Parameter); ok {
+							return ia, strings.Contains(canonParamName(prm), "DocNums")
+						}
+					}
+				}
+			}
 			return ia, strings.Contains(y.Name(), "DocNums")
 		case *ssa.Alloc:
+			for _, st := range cellStores(y) {
+				if prm, ok := st.Val.(*ssa.Parameter); ok {
+					return ia, strings.Contains(canonParamName(prm), "DocNums")
+				}
+			}
 			return ia, strings.Contains(y.Comment, "DocNums")
 		case *ssa.UnOp:
 			if y.Op != token.MUL {
@@ -1000,11 +1041,46 @@ func r24Writer(c *RuleCtx) {
 		if _, ok := st.Addr.(*ssa.IndexAddr); !ok {
 			return
 		}
-		if ph, ok := st.Val.(*ssa.Phi); ok && strings.Contains(ph.Comment, "newDocNum") && !dropBlock.Dominates(b) && b != dropBlock {
+		// the running counter: a loop-carried value that is incremented by one
+		if ph, ok := st.Val.(*ssa.Phi); ok && isRunningCounter(ph) && !dropBlock.Dominates(b) && b != dropBlock {
 			survivorStore = true
 		}
 	})
 	c.add2(survivorStore, props, "writer/survivor-number", c.fpos(fn), "for a surviving document the table receives the running new document number", "no store of the running counter into the renumbering table found outside the dropped branch")
+}
+
+// isRunningCounter: ph is a variable that some path around a loop increments
+// by the constant one (x++ / x += 1), possibly merged through other phis.
+func isRunningCounter(ph *ssa.Phi) bool {
+	seen := map[*ssa.Phi]bool{}
+	var visit func(p *ssa.Phi, depth int) bool
+	visit = func(p *ssa.Phi, depth int) bool {
+		if seen[p] || depth > 4 {
+			return false
+		}
+		seen[p] = true
+		for _, e := range p.Edges {
+			switch x := e.(type) {
+			case *ssa.BinOp:
+				if x.Op != token.ADD {
+					continue
+				}
+				k, ok := constUint64(x.Y)
+				if !ok || k != 1 {
+					continue
+				}
+				if q, ok := x.X.(*ssa.Phi); ok && (q == ph || seen[q] || visit(q, depth+1)) {
+					return true
+				}
+			case *ssa.Phi:
+				if visit(x, depth+1) {
+					return true
+				}
+			}
+		}
+		return false
+	}
+	return visit(ph, 0)
 }
 
 func instrIndex(in ssa.Instruction) int {
